@@ -2,6 +2,7 @@ import Claripy.AST.Rules
 import Claripy.AST.Fold
 import Claripy.AST.Meta
 import Claripy.AST.Subst
+import Claripy.AST.Truth
 /-! S-expression reader/printer and the `ev` / `fold` / `rules` requests of the line protocol. -/
 namespace Driver.Expr
 open Claripy.AST
@@ -139,5 +140,17 @@ def handlePlan (args : List String) : String :=
     let d : List (Nat × Expr) := ks.map fun k => (k, Expr.boolv true)
     " ".intercalate ((iteDictPlan medianKey d.length d).map toString)
   | none => "bad-op"
+
+/-- `truth T <e> ;; F <e> ;; ...` : answers of a history of is_true / is_false queries from empty caches -/
+def handleTruth (toks : List String) : String :=
+  let groups := toks.splitOn ";;"
+  let qs := groups.filterMap fun g =>
+    match g with
+    | "T" :: rest => (parseExpr rest).map Query.isTrue
+    | "F" :: rest => (parseExpr rest).map Query.isFalse
+    | _ => none
+  if qs.length != groups.length then "bad-op" else
+  let (as, c) := runQueries {} qs
+  String.join (as.map fun a => if a then "1" else "0") ++ s!" t={c.t.length} f={c.f.length}"
 
 end Driver.Expr
